@@ -1,18 +1,24 @@
 """C13 - based integer literals and base conversion round-trip."""
+from fractions import Fraction
 from .common import *
 
-THEOREMS = ["c13_digits_roundtrip", "c13_print_read", "c13_convert", "c13_arith", "c13_nonvacuous"]
 ALLOWED_AXIOMS = []
 DETAIL = 0
-RULE = ("n from {0, 1, 2^k-1, 2^k, 2^k+1 (k<=62), random} x 4 source x 4 target bases; fractional N around .5; "
-        "arithmetic with based literals; printed literal fed back as a new line; non-trivial = a based or converted "
-        "number; distinct = distinct text")
+RULE = ("n from {0, 1, 2^k-1, 2^k, 2^k+1 (k<=62), 2^63-1024, 2^63-1, random} x 4 source x 4 target bases (both digit "
+        "cases, both prefix cases, 'to/as/into' or no conversion word); every conversion is followed by its printed "
+        "literal as a second line (read-back); fractional N around .5 (exact rational oracle, incl. "
+        "0.49999999999999994 and 2^52-0.5); arithmetic + - * / with based literals (left type kept); a based literal "
+        "held in a variable and converted; literals one past the i64 range (skipped, must not panic); "
+        "non-trivial = a based or converted number; distinct = distinct text")
 ASSUMPTIONS = ["integers above 2^53 are not exactly representable in binary64: expected values follow the rounding of "
-               "i64 -> f64 (python int -> float is the same correctly rounded conversion)"]
+               "i64 -> f64 (python int -> float is the same correctly rounded conversion) and the saturating f64 -> i64 "
+               "cast when printing",
+               "default configuration: decimal separator ','"]
 
 BASES = {"hex": (16, "0x", "Hexadecimal"), "octal": (8, "0o", "Octal"), "binary": (2, "0b", "Binary"),
          "decimal": (10, "", "Decimal")}
 WORDS = {"hex": ["hex", "hexadecimal"], "octal": ["octal"], "binary": ["binary"], "decimal": ["decimal"]}
+I64_MAX = 2 ** 63 - 1
 
 
 def digits(n, base, upper=True):
@@ -27,14 +33,22 @@ def digits(n, base, upper=True):
 
 
 def lit(rng, n, base_name):
+    """a literal of n in the base, digits in either case, prefix in either case"""
     base, pre, _ = BASES[base_name]
     if base == 10:
         return str(n)
-    p = pre if rng.random() < 0.7 else pre.upper().replace("0X", "0X")
+    p = pre if rng.random() < 0.7 else pre.upper()
     return p + digits(n, base, upper=rng.random() < 0.5)
 
 
+def held(v):
+    """the integer the calculator holds for the literal v (i64 -> f64), and what `as i64` gives back"""
+    fv = float(v)
+    return fv, min(int(fv), I64_MAX)
+
+
 def printed(n, base_name):
+    """the text of the non-negative integer n in the base (None for decimal: number formatting is C07)"""
     base, pre, _ = BASES[base_name]
     if base == 10:
         return None
@@ -42,70 +56,120 @@ def printed(n, base_name):
 
 
 def round_half_away(x):
-    import math
-    return math.floor(abs(x) + 0.5) * (1 if x >= 0 else -1)
+    """nearest integer of the binary64 x, ties away from zero, computed exactly"""
+    q = Fraction(x)
+    r = (abs(q) + Fraction(1, 2)).__floor__()
+    return r if q >= 0 else -r
+
+
+def two_lines(text, second, **meta):
+    c = exec_case(text + "\n" + second, "en", **meta)
+    c["meta"]["second"] = second
+    return c
 
 
 def generate(rng, tier):
-    n = 350 if tier == "quick" else 5000
-    pool = [0, 1, 2, 7, 8, 9, 10, 15, 16, 17, 255, 256, 1000, 65535, 65536, 2 ** 31 - 1, 2 ** 31, 2 ** 31 + 1, 2 ** 32,
-            2 ** 53 - 1, 2 ** 53, 2 ** 62, 2 ** 63 - 1024]
+    n = 420 if tier == "quick" else 6000
+    pool = [0, 1, 2, 7, 8, 9, 10, 15, 16, 17, 255, 256, 1000, 65535, 65536, 2 ** 53 - 1, 2 ** 63 - 1024, 2 ** 63 - 1]
     for k in range(1, 63):
         pool += [2 ** k - 1, 2 ** k, 2 ** k + 1]
+    fracs = [0.5, 1.5, 2.5, 2.4999, 254.5, 255.49, 1023.5, 0.4, 99.999, 0.49999999999999994, 0.5000000000000001,
+             4503599627370495.5, 2251799813685248.5, 2147483647.5, 2147483648.5, 4294967295.5, 1e15 + 0.5]
     cases = []
-    while len(cases) < n:
+    seen = set()
+
+    def add(c):
+        key = c["ops"][-1]["text"]
+        if key not in seen:
+            seen.add(key)
+            cases.append(c)
+
+    # the deterministic part: every pool value once as a literal of a based type + read-back
+    for i, v in enumerate(pool):
+        src = ["hex", "octal", "binary"][i % 3]
+        fv, iv = held(v)
+        out = printed(iv, src)
+        add(two_lines(lit(rng, v, src), out, kind="literal", value=bits(fv), nt=BASES[src][2], out=out))
+    guard = 0
+    while len(cases) < n and guard < 50 * n:
+        guard += 1
         r = rng.random()
-        v = rng.choice(pool) if rng.random() < 0.6 else rng.randint(0, 2 ** rng.randint(1, 62))
+        v = rng.choice(pool) if rng.random() < 0.6 else rng.randint(0, 2 ** rng.randint(1, 63) - 1)
         src = rng.choice(list(BASES))
         tgt = rng.choice(list(BASES))
-        fv = float(v)                       # value of the literal as the calculator holds it
-        if r < 0.55:
+        fv, iv = held(v)
+        if r < 0.5:
             # N to base (with and without the conversion word), N an integer literal in any base
             if src == "decimal" and v >= 10 ** 15:
                 continue                    # long decimal literals are a formatting question (C07)
             conv = rng.choice(["to ", "to ", "as ", "into ", ""])      # "in" reads as the unit inch
             text = "%s %s%s" % (lit(rng, v, src), conv, rng.choice(WORDS[tgt]))
-            iv = int(fv)
-            exp_out = printed(iv, tgt)
-            cases.append(exec_case(text, "en", kind="convert", value=bits(fv), nt=BASES[tgt][2], out=exp_out, back=iv if exp_out else None))
-        elif r < 0.7:
+            out = printed(iv, tgt)
+            if out:
+                add(two_lines(text, out, kind="convert", value=bits(fv), nt=BASES[tgt][2], out=out))
+            else:
+                add(exec_case(text, "en", kind="convert", value=bits(fv), nt=BASES[tgt][2], out=None))
+        elif r < 0.65:
             # fractional N is rounded to the nearest integer (ties away from zero)
-            x = rng.choice([0.5, 1.5, 2.5, 2.4999, 254.5, 255.49, 1023.5, 0.4, 99.999]) if rng.random() < 0.6 else round(rng.uniform(0, 5000), 2)
+            x = rng.choice(fracs) if rng.random() < 0.5 else \
+                (rng.randint(0, 2 ** rng.randint(1, 40)) + 0.5 if rng.random() < 0.5 else round(rng.uniform(0, 5000), 2))
             tgt = rng.choice(["hex", "octal", "binary"])
             iv = round_half_away(x)
-            text = "%s to %s" % (fmt_dec(x), rng.choice(WORDS[tgt]))
-            cases.append(exec_case(text, "en", kind="round", value=bits(float(iv)), nt=BASES[tgt][2], out=printed(iv, tgt), back=iv))
-        elif r < 0.85:
+            out = printed(iv, tgt)
+            add(two_lines("%s to %s" % (fmt_dec(x), rng.choice(WORDS[tgt])), out, kind="round",
+                          value=bits(float(iv)), nt=BASES[tgt][2], out=out))
+        elif r < 0.82:
             # a based literal is an ordinary number in arithmetic; the result keeps the left type
             if v > 2 ** 40:
                 continue
             w = rng.choice([1, 2, 3, 10, 255, 4096])
-            op = rng.choice("+-*")
+            op = rng.choice("+-*/")
             src2 = rng.choice(["hex", "octal", "binary"])
             text = "%s %s %s" % (lit(rng, v, src2), op, lit(rng, w, rng.choice(list(BASES))))
-            res = fv + w if op == "+" else fv - w if op == "-" else fv * w
-            cases.append(exec_case(text, "en", kind="arith", value=bits(res), nt=BASES[src2][2], out=None, back=None))
-        else:
-            # plain literal
+            res = fv + w if op == "+" else fv - w if op == "-" else fv * w if op == "*" else fv / w
+            out = printed(int(res), src2) if res >= 0 and res == int(res) else None
+            add(exec_case(text, "en", kind="arith", value=bits(res), nt=BASES[src2][2], out=out))
+        elif r < 0.9:
+            # a based literal held in a variable, then converted
             src2 = rng.choice(["hex", "octal", "binary"])
-            text = lit(rng, v, src2)
-            iv = int(fv)
-            cases.append(exec_case(text, "en", kind="literal", value=bits(fv), nt=BASES[src2][2], out=printed(iv, src2), back=iv))
-    # second pass: reading the printed literal back gives the same integer (as a two-line text)
-    extra = []
-    for c in cases:
-        m = c["meta"]
-        if m.get("out") and len(extra) < n // 3:
-            extra.append(exec_case(m["out"], "en", kind="readback", value=bits(float(m["back"])), nt=m["nt"], out=m["out"], back=m["back"]))
-    return cases + extra
+            out = printed(iv, tgt)
+            c = exec_case("a = %s\na to %s" % (lit(rng, v, src2), rng.choice(WORDS[tgt])), "en", kind="variable",
+                          value=bits(fv), nt=BASES[tgt][2], out=out)
+            add(c)
+        elif r < 0.95:
+            # plain literal + read-back
+            src2 = rng.choice(["hex", "octal", "binary"])
+            out = printed(iv, src2)
+            add(two_lines(lit(rng, v, src2), out, kind="literal", value=bits(fv), nt=BASES[src2][2], out=out))
+        else:
+            # one past the range of the reader: not a literal any more; nothing is claimed but "no panic"
+            src2 = rng.choice(["hex", "octal", "binary"])
+            big = 2 ** 63 + rng.choice([0, 1, 2 ** 62, 2 ** 63 - 1, 2 ** 64, 2 ** 70])
+            add(exec_case(lit(rng, big, src2), "en", kind="beyond-i64"))
+    return cases
 
 
 def nontrivial(c, rec):
     lines = last_lines(rec)
-    if not lines or lines[0] is None:
+    if not lines or lines[-1] is None:
         return False
-    k, v = line_value(lines[0])
+    k, v = line_value(lines[-1])
     return k == "item" and v["t"] == "Number"
+
+
+def check_line(line, m, what):
+    if line is None:
+        return "%s: no result" % what
+    k, v = line_value(line)
+    if k != "item" or v["t"] != "Number":
+        return "%s: expected a number, got %s %r" % (what, k, v)
+    if int(v["v"]) != m["value"]:
+        return "%s: expected the value %r, got %r" % (what, from_bits(m["value"]), from_bits(v["v"]))
+    if v["nt"] != m["nt"]:
+        return "%s: expected number type %s, got %s" % (what, m["nt"], v["nt"])
+    if m.get("out") is not None and line["out"] != m["out"]:
+        return "%s: expected the text %r, got %r" % (what, m["out"], line["out"])
+    return None
 
 
 def spec_check(c, rec, header):
@@ -113,18 +177,19 @@ def spec_check(c, rec, header):
     lines = last_lines(rec)
     if lines is None:
         return "evaluation panicked or hung"
-    if len(lines) != 1 or lines[0] is None:
+    if m["kind"] == "beyond-i64":
+        return None
+    if m["kind"] == "variable":
+        if len(lines) != 2:
+            return "expected two results, got %r" % (lines,)
+        return check_line(lines[1], m, "converted variable")
+    if "second" in m:
+        if len(lines) != 2:
+            return "expected two results, got %r" % (lines,)
+        return check_line(lines[0], m, "first line") or check_line(lines[1], m, "read-back of %r" % m["second"])
+    if len(lines) != 1:
         return "expected one result, got %r" % (lines,)
-    k, v = line_value(lines[0])
-    if k != "item" or v["t"] != "Number":
-        return "expected a number, got %s %r" % (k, v)
-    if int(v["v"]) != m["value"]:
-        return "expected the value %r, got %r" % (from_bits(m["value"]), from_bits(v["v"]))
-    if v["nt"] != m["nt"]:
-        return "expected number type %s, got %s" % (m["nt"], v["nt"])
-    if m.get("out") is not None and lines[0]["out"] != m["out"]:
-        return "expected the text %r, got %r" % (m["out"], lines[0]["out"])
-    return None
+    return check_line(lines[0], m, "line")
 
 
 def known_class(c, rec, verdict, known):
